@@ -68,6 +68,17 @@ def _subs_from(conds):
     return subs, infeasible
 
 
+def _minmax_eval(e):
+    """Evaluate the uninterpreted pymin/pymax applications on numeric arguments (innermost first)."""
+    for _ in range(20):
+        apps = [a for a in e.atoms(sp.Function) if isinstance(a, sp.core.function.AppliedUndef)
+                and a.func.__name__ in ("pymin", "pymax") and all(x.is_number for x in a.args)]
+        if not apps:
+            return e
+        e = e.xreplace({a: (sp.Min if a.func.__name__ == "pymin" else sp.Max)(*a.args) for a in apps})
+    return e
+
+
 def is_zero(e, seed=0, points=8):
     """Decide e == 0 as an identity.  Returns (True|False, how, witness)."""
     e = sp.sympify(e)
@@ -89,7 +100,8 @@ def is_zero(e, seed=0, points=8):
     # evaluation of the expression tree at random rational points (Schwartz-Zippel)
     rng = random.Random(seed * 7919 + 13)
     syms = sorted(d.free_symbols, key=str)
-    funcs = [f for f in d.atoms(sp.Function) if isinstance(f, sp.core.function.AppliedUndef)]
+    funcs = [f for f in d.atoms(sp.Function) if isinstance(f, sp.core.function.AppliedUndef)
+             and f.func.__name__ not in ("pymin", "pymax")]
     if funcs:
         # uninterpreted applications: replace each distinct application by a fresh symbol
         rep = {f: sp.Symbol(f"_u{i}", real=True) for i, f in enumerate(sorted(funcs, key=str))}
@@ -97,7 +109,7 @@ def is_zero(e, seed=0, points=8):
         syms = sorted(d.free_symbols, key=str)
     bad = None
     agree = 0
-    if d.has(sp.Max, sp.Min, sp.Piecewise, sp.Abs):
+    if d.has(sp.Max, sp.Min, sp.Piecewise, sp.Abs) or any(f.func.__name__ in ('pymin', 'pymax') for f in d.atoms(sp.Function) if isinstance(f, sp.core.function.AppliedUndef)):
         points = max(points, 24)
     for _ in range(points):
         pt = {}
@@ -114,7 +126,7 @@ def is_zero(e, seed=0, points=8):
                 v = sp.Rational(rng.randint(1, 9), 100000)
             pt[s] = v
         try:
-            val = d.xreplace(pt)
+            val = _minmax_eval(d.xreplace(pt))
             val = sp.N(val, 50)
         except Exception:
             continue
